@@ -320,6 +320,10 @@ func runJob(j job, seed uint64, quick bool) (out []result) {
 			o := runShare(shareSpec{Name: stack + "-" + kind, Stack: stack, Kind: kind})
 			out = append(out, result{Share: &o})
 		}
+		for _, kind := range []string{"cancel", "deadline"} { // the joiner's own context ends while the dial goes on
+			o := runShare(shareSpec{Name: stack + "-joiner-" + kind, Stack: stack, Kind: kind, EndB: true})
+			out = append(out, result{Share: &o})
+		}
 	case "retry":
 		for _, sp := range retrySpecs {
 			for _, kind := range []string{"cancel", "deadline"} {
